@@ -1,7 +1,520 @@
 package main
 
-func runPlacementChild(params string) { emit(map[string]string{"fatal": "not implemented"}) }
+// Placement replay without hooks in /repo: the interfaces the components already take (application.BlocksManager,
+// UtxosManager, AddressesManager, SendersManager, Sender) are wrapped by decorators that run a second operation
+// — to completion — inside a chosen collaborator call of the outer operation; afterwards the invariants are
+// checked.  Each placement is compared with the two sequential orders (inner before outer, inner after outer): an
+// invariant that also fails sequentially is not a finding of C16.
+
+import (
+	"context"
+	"encoding/json"
+	"fmt"
+	"os"
+	"os/exec"
+	"path/filepath"
+	"sort"
+	"strings"
+	"sync"
+	"sync/atomic"
+	"time"
+
+	"github.com/my-cloud/ruthenium/validatornode/application"
+	"github.com/my-cloud/ruthenium/validatornode/application/network"
+	"github.com/my-cloud/ruthenium/validatornode/application/validation"
+	"github.com/my-cloud/ruthenium/validatornode/application/verification"
+	"github.com/my-cloud/ruthenium/validatornode/domain/ledger"
+
+	"ruverif/internal/node"
+)
+
+// hookPoint fires the armed action once, at the first call with the armed label
+type hookPoint struct {
+	armed  atomic.Pointer[string]
+	action func()
+	fired  atomic.Bool
+}
+
+func (h *hookPoint) at(label string) {
+	if h == nil {
+		return
+	}
+	l := h.armed.Load()
+	if l == nil || *l != label {
+		return
+	}
+	h.armed.Store(nil)
+	h.fired.Store(true)
+	h.action()
+}
+
+type decoBlocks struct {
+	inner application.BlocksManager
+	h     *hookPoint
+}
+
+func (d *decoBlocks) AddBlock(ts int64, txs []*ledger.Transaction, a []string) error {
+	d.h.at("Blockchain.AddBlock")
+	return d.inner.AddBlock(ts, txs, a)
+}
+func (d *decoBlocks) Blocks(h uint64) []*ledger.Block { return d.inner.Blocks(h) }
+func (d *decoBlocks) FirstBlockTimestamp() int64      { return d.inner.FirstBlockTimestamp() }
+func (d *decoBlocks) LastBlockTimestamp() int64 {
+	d.h.at("Blockchain.LastBlockTimestamp")
+	return d.inner.LastBlockTimestamp()
+}
+func (d *decoBlocks) LastBlockTransactions() []*ledger.Transaction {
+	d.h.at("Blockchain.LastBlockTransactions")
+	return d.inner.LastBlockTransactions()
+}
+
+type decoUtxos struct {
+	inner application.UtxosManager
+	h     *hookPoint
+}
+
+func (d *decoUtxos) CalculateFee(t *ledger.Transaction, ts int64) (uint64, error) {
+	d.h.at("UtxosRegistry.CalculateFee")
+	return d.inner.CalculateFee(t, ts)
+}
+func (d *decoUtxos) Clear() { d.h.at("UtxosRegistry.Clear"); d.inner.Clear() }
+func (d *decoUtxos) Copy() application.UtxosManager {
+	d.h.at("UtxosRegistry.Copy")
+	return d.inner.Copy()
+}
+func (d *decoUtxos) UpdateUtxos(txs []*ledger.Transaction, ts int64) error {
+	d.h.at("UtxosRegistry.UpdateUtxos")
+	return d.inner.UpdateUtxos(txs, ts)
+}
+func (d *decoUtxos) Utxos(a string) []*ledger.Utxo { return d.inner.Utxos(a) }
+
+type decoReg struct {
+	inner application.AddressesManager
+	h     *hookPoint
+}
+
+func (d *decoReg) Clear() { d.h.at("AddressesRegistry.Clear"); d.inner.Clear() }
+func (d *decoReg) Copy() application.AddressesManager {
+	d.h.at("AddressesRegistry.Copy")
+	return d.inner.Copy()
+}
+func (d *decoReg) Filter(a []string) []string { return d.inner.Filter(a) }
+func (d *decoReg) IsRegistered(a string) bool { return d.inner.IsRegistered(a) }
+func (d *decoReg) RemovedAddresses() []string { return d.inner.RemovedAddresses() }
+func (d *decoReg) Update(a []string, r []string) {
+	d.h.at("AddressesRegistry.Update")
+	d.inner.Update(a, r)
+}
+
+// which decorator serves a table label for a given outer operation ("" = no dynamic hook for this point)
+func hookFor(outer, label string) (where, canonical string) {
+	switch label {
+	case "go:GetBlocks", "GetBlocks", "Blockchain.verifyNeighborBlockchain", "Blockchain.verify":
+		if outer == "Blockchain.Update" {
+			return "sender", "GetBlocks"
+		}
+	case "UtxosRegistry.Copy", "UtxosRegistry.CalculateFee", "UtxosRegistry.Clear", "UtxosRegistry.UpdateUtxos":
+		if outer == "Blockchain.Update" {
+			return "chain-utxos", label
+		}
+		return "pool-utxos", label
+	case "AddressesRegistry.Copy", "AddressesRegistry.Clear", "AddressesRegistry.Update":
+		if outer == "Blockchain.Update" {
+			return "chain-registry", label
+		}
+	case "Blockchain.LastBlockTimestamp", "Blockchain.LastBlockTransactions", "Blockchain.AddBlock":
+		if outer != "Blockchain.Update" {
+			return "pool-blocks", label
+		}
+	case "Neighborhood.Senders":
+		return "senders", label
+	}
+	return "", ""
+}
+
+type placementSpec struct {
+	Outer     string `json:"outer"`     // Blockchain.Update | TransactionsPool.Validate | TransactionsPool.AddTransaction
+	Where     string `json:"where"`     // decorator
+	Label     string `json:"label"`     // canonical label of the call
+	Inner     string `json:"inner"`     // root name
+	Table     string `json:"table"`     // verdict of the table for this point (stale / safe)
+	Signature string `json:"signature"` // C16/placement/<outer>@<label>/<inner>
+}
+
+type placementOutcome struct {
+	Spec       placementSpec `json:"spec"`
+	Fired      bool          `json:"fired"`
+	Blocked    bool          `json:"blocked"`
+	Panic      string        `json:"panic,omitempty"`
+	Failed     []invResult   `json:"failed"`     // invariants that fail for the placement only
+	Sequential []string      `json:"sequential"` // invariants that fail in a sequential order as well
+	Checks     int           `json:"checks"`
+}
+
+// decorated world: like newWorld, but every collaborator edge goes through a decorator sharing one hook
+func newDecoratedWorld(h *hookPoint) (*World, error) {
+	s := node.DefaultSettings()
+	s.Timeout = 2 * time.Second
+	s.BlocksLimit = 1000
+	w := &World{S: s, A: node.NewWallet(0), B: node.NewWallet(1), C: node.NewWallet(2), reqCache: map[string][]byte{}, txIds: map[string]bool{}}
+	var err error
+	w.P, w.M, w.N, w.Split, err = lineages(s, w.A, w.B, 14)
+	if err != nil {
+		return nil, err
+	}
+	hn := &node.Node{Name: "127.0.0.1:10000", Settings: s, Validator: w.C.Address}
+	hn.Humans = &node.Humans{Invalid: map[string]bool{}, Failing: map[string]bool{}}
+	hn.Log = &node.Logger{}
+	hn.Senders = &node.Senders{Host: hn.Name}
+	hn.Reg = verification.NewAddressesRegistry(hn.Humans, hn.Log)
+	hn.Utxos = verification.NewUtxosRegistry(s)
+	seeds := map[string]int{"127.0.0.1:10001": 0}
+	fac := &factory{w: w, peers: map[string]*peer{}}
+	for t := range seeds {
+		fac.peers[t] = &peer{target: t, w: w}
+	}
+	w.Nbh = network.NewNeighborhood(fac, "127.0.0.1", "10000", 8, seeds, watch{})
+	w.SM = &recSenders{inner: w.Nbh, hook: func(m string) { h.at(m) }}
+	hn.Chain = verification.NewBlockchain(&decoReg{hn.Reg, h}, s, w.SM, &decoUtxos{hn.Utxos, h}, hn.Log)
+	hn.Pool = validation.NewTransactionsPool(&decoBlocks{hn.Chain, h}, s, w.SM, &decoUtxos{hn.Utxos, h}, w.C.Address, hn.Log)
+	w.H = hn
+	hk := func() { h.at("GetBlocks") }
+	w.getBlocksHook.Store(&hk)
+	w.Nbh.Synchronize(0)
+	time.Sleep(2 * time.Millisecond)
+	hn.Pool.Validate(T0)
+	start := w.M[:len(w.P)+2]
+	w.publish(start)
+	for i := 0; i < 6 && len(hn.AllBlocks()) < len(start); i++ {
+		hn.Chain.Update(farFuture)
+	}
+	if got := hn.AllBlocks(); len(got) != len(start) {
+		return nil, fmt.Errorf("host did not adopt the initial chain (has %d of %d): %v", len(got), len(start), tailStr(hn.Log.Snapshot(), 4))
+	}
+	hn.Log.Drain()
+	return w, nil
+}
+
+// lineages are expensive (signatures): built once per process
+var (
+	linOnce          sync.Once
+	linP, linM, linN []*ledger.Block
+	linSplit         []splitOut
+	linErr           error
+)
+
+func lineages(s *node.Settings, A, B *node.Wallet, length int) ([]*ledger.Block, []*ledger.Block, []*ledger.Block, []splitOut, error) {
+	linOnce.Do(func() { linP, linM, linN, linSplit, linErr = buildLineages(s, A, B, length) })
+	return linP, linM, linN, linSplit, linErr
+}
+
+// the operations, run synchronously on world w
+func runOuter(w *World, outer string, txKey int) {
+	switch outer {
+	case "Blockchain.Update":
+		// the neighbour serves the other lineage, two blocks longer than the host: a deep fork (Clear + rebuild);
+		n := len(w.H.AllBlocks()) + 2
+		w.publish(w.M[:n])
+		w.H.Chain.Update(farFuture)
+	case "TransactionsPool.Validate":
+		w.H.Pool.Validate(w.H.Chain.LastBlockTimestamp() + w.S.Interval)
+	case "TransactionsPool.AddTransaction":
+		submit(w, txKey)
+	}
+}
+
+func submit(w *World, j int) {
+	ts := w.H.Chain.LastBlockTimestamp()
+	b, _, err := w.request(j, ts)
+	if err != nil {
+		return
+	}
+	var r *ledger.TransactionRequest
+	if json.Unmarshal(b, &r) != nil || r == nil {
+		return
+	}
+	w.H.Pool.AddTransaction(r.Transaction(), r.TransactionBroadcasterTarget(), w.SM.HostTarget())
+}
+
+func runInner(w *World, rc *runCtx, inner string, txKey int) {
+	switch inner {
+	case "engine:Blockchain.Update":
+		n := len(w.H.AllBlocks()) + 2
+		w.publish(w.N[:n]) // the other lineage: a fork for a host on M
+		w.H.Chain.Update(farFuture)
+	case "engine:TransactionsPool.Validate":
+		w.H.Pool.Validate(w.H.Chain.LastBlockTimestamp() + w.S.Interval)
+	case txRoot:
+		submit(w, txKey)
+	case "engine:AddressesRegistry.Synchronize":
+		w.H.Humans.Set([]string{w.A.Address}, nil)
+		w.H.Reg.Synchronize(0)
+	case "handler:SendersController.HandleTargetsRequest":
+		w.Nbh.AddTargets([]string{"127.0.0.1:10007"})
+	default:
+		if d, ok := drivers[inner]; ok {
+			d(rc, 0)
+		}
+	}
+}
+
+func failedInvariants(w *World) ([]invResult, int) {
+	time.Sleep(5 * time.Millisecond)
+	logs := w.H.Log.Snapshot()
+	replaced := false
+	for _, l := range logs {
+		if strings.Contains(l, "blockchain replaced") {
+			replaced = true
+		}
+	}
+	all := checkInvariants(w, replaced, logs)
+	var bad []invResult
+	for _, iv := range all {
+		if !iv.Ok {
+			bad = append(bad, iv)
+		}
+	}
+	return bad, len(all)
+}
+
+func onePlacement(sp placementSpec) (out placementOutcome) {
+	out.Spec = sp
+	out.Failed = []invResult{}
+	out.Sequential = []string{}
+	defer func() {
+		if r := recover(); r != nil {
+			out.Panic = fmt.Sprint(r)
+		}
+	}()
+	// a pending transaction gives block production and admission something to work on
+	prepare := func(w *World) {
+		submit(w, 1)
+		submit(w, 2)
+	}
+	// sequential orders first
+	seqFailed := map[string]bool{}
+	for order := 0; order < 2; order++ {
+		h := &hookPoint{action: func() {}}
+		w, err := newDecoratedWorld(h)
+		if err != nil {
+			out.Panic = "world: " + err.Error()
+			return
+		}
+		rc := newRunCtx(w, 1)
+		rc.progress = make([]atomic.Int64, 1)
+		prepare(w)
+		if order == 0 {
+			runInner(w, rc, sp.Inner, 3)
+			runOuter(w, sp.Outer, 3)
+		} else {
+			runOuter(w, sp.Outer, 3)
+			runInner(w, rc, sp.Inner, 3)
+		}
+		bad, n := failedInvariants(w)
+		out.Checks += n
+		for _, iv := range bad {
+			seqFailed[iv.Name] = true
+		}
+	}
+	// the placement
+	h := &hookPoint{}
+	w, err := newDecoratedWorld(h)
+	if err != nil {
+		out.Panic = "world: " + err.Error()
+		return
+	}
+	rc := newRunCtx(w, 1)
+	rc.progress = make([]atomic.Int64, 1)
+	prepare(w)
+	h.action = func() {
+		done := make(chan struct{})
+		go func() {
+			defer close(done)
+			defer func() {
+				if r := recover(); r != nil {
+					out.Panic = "inner: " + fmt.Sprint(r)
+				}
+			}()
+			runInner(w, rc, sp.Inner, 3)
+		}()
+		select {
+		case <-done:
+		case <-time.After(3 * time.Second):
+			out.Blocked = true
+		}
+	}
+	label := sp.Label
+	h.armed.Store(&label)
+	fin := make(chan struct{})
+	go func() {
+		defer close(fin)
+		defer func() {
+			if r := recover(); r != nil {
+				out.Panic = "outer: " + fmt.Sprint(r)
+			}
+		}()
+		runOuter(w, sp.Outer, 3)
+	}()
+	select {
+	case <-fin:
+	case <-time.After(8 * time.Second):
+		out.Blocked = true
+		out.Fired = h.fired.Load()
+		return
+	}
+	out.Fired = h.fired.Load()
+	if out.Blocked {
+		return
+	}
+	bad, n := failedInvariants(w)
+	out.Checks += n
+	for _, iv := range bad {
+		if seqFailed[iv.Name] {
+			out.Sequential = append(out.Sequential, iv.Name)
+		} else {
+			out.Failed = append(out.Failed, iv)
+		}
+	}
+	return
+}
+
+func runPlacementChild(params string) {
+	var specs []placementSpec
+	if err := json.Unmarshal([]byte(params), &specs); err != nil {
+		emit(map[string]string{"fatal": err.Error()})
+		os.Exit(2)
+	}
+	var outs []placementOutcome
+	for _, sp := range specs {
+		outs = append(outs, onePlacement(sp))
+	}
+	emit(map[string]interface{}{"outcomes": outs})
+}
 
 func runPlacements(tablesPath, work string, seed int64, sel string, workers int) {
-	emit(map[string]interface{}{"mode": "placements", "failures": []failure{}, "placements": 0})
+	t := loadTables(tablesPath)
+	// distinct dynamic placements: (outer, decorator label, inner), with the table's verdict (stale wins)
+	byKey := map[string]*placementSpec{}
+	skipped := map[string]int{}
+	for _, p := range t.Placements {
+		where, canon := hookFor(p.OuterName, p.Label)
+		if where == "" {
+			skipped[p.OuterName+"@"+p.Label]++
+			continue
+		}
+		if _, ok := drivers[p.InnerRoot]; !ok {
+			skipped["inner "+p.InnerRoot]++
+			continue
+		}
+		k := p.OuterName + "@" + canon + "/" + p.InnerRoot
+		if p.Verdict == "excluded" {
+			// the inner cannot complete there (it needs a mutex the outer holds): not replayed
+			if _, ok := byKey[k]; !ok {
+				byKey[k] = &placementSpec{p.OuterName, where, canon, p.InnerRoot, "excluded", "C16/placement/" + k}
+			}
+			continue
+		}
+		cur, ok := byKey[k]
+		if !ok || cur.Table == "excluded" || p.Verdict == "stale" && cur.Table != "stale" {
+			byKey[k] = &placementSpec{p.OuterName, where, canon, p.InnerRoot, p.Verdict, "C16/placement/" + k}
+		}
+	}
+	var specs []placementSpec
+	excluded := 0
+	for _, sp := range byKey {
+		if sp.Table == "excluded" {
+			excluded++
+			continue
+		}
+		if sel != "thorough" && sp.Table != "stale" {
+			continue
+		}
+		specs = append(specs, *sp)
+	}
+	sort.Slice(specs, func(i, j int) bool { return specs[i].Signature < specs[j].Signature })
+	// chunks
+	if workers < 1 {
+		workers = 1
+	}
+	chunks := make([][]placementSpec, workers)
+	for i, sp := range specs {
+		chunks[i%workers] = append(chunks[i%workers], sp)
+	}
+	results := make([][]placementOutcome, workers)
+	errs := make([]string, workers)
+	var wg sync.WaitGroup
+	for i := range chunks {
+		if len(chunks[i]) == 0 {
+			continue
+		}
+		wg.Add(1)
+		go func(i int) {
+			defer wg.Done()
+			pb, _ := json.Marshal(chunks[i])
+			ctx, cancel := context.WithTimeout(context.Background(), 10*time.Minute)
+			defer cancel()
+			cmd := exec.CommandContext(ctx, os.Args[0], "--mode", "child-placement", "--params", string(pb))
+			cmd.Env = append(os.Environ(), "GORACE=halt_on_error=0 exitcode=0 log_path="+work+"/placement-race")
+			out, err := cmd.Output()
+			lines := strings.Split(strings.TrimSpace(string(out)), "\n")
+			var r struct {
+				Outcomes []placementOutcome `json:"outcomes"`
+			}
+			if e := json.Unmarshal([]byte(lines[len(lines)-1]), &r); e != nil || err != nil {
+				errs[i] = fmt.Sprintf("placement child failed: %v %v: %s", err, e, tailS(string(out), 300))
+			}
+			results[i] = r.Outcomes
+		}(i)
+	}
+	wg.Wait()
+	if logs, _ := filepath.Glob(work + "/placement-race.*"); logs != nil {
+		for _, l := range logs {
+			_ = os.Remove(l)
+		}
+	}
+	failures := []failure{}
+	fired, notFired, blocked, checks, seqOnly := 0, 0, 0, 0, 0
+	var samples []placementOutcome
+	viol := []map[string]interface{}{}
+	for i := range results {
+		if errs[i] != "" {
+			failures = append(failures, failure{"diff", fmt.Sprintf("C16/placement/harness/chunk%d", i), errs[i], false, map[string]interface{}{"tool": "ruconc", "mode": "placements"}})
+		}
+		for _, o := range results[i] {
+			checks += o.Checks
+			if o.Fired {
+				fired++
+			} else {
+				notFired++
+			}
+			if len(o.Sequential) > 0 {
+				seqOnly++
+			}
+			if len(samples) < 3 && o.Fired {
+				samples = append(samples, o)
+			}
+			replay := map[string]interface{}{"tool": "ruconc", "mode": "placements", "spec": o.Spec}
+			if o.Panic != "" {
+				failures = append(failures, failure{"prop", o.Spec.Signature + "/panic", "panic while running " + o.Spec.Inner + " inside " + o.Spec.Outer + "@" + o.Spec.Label + ": " + o.Panic, true, replay})
+			}
+			if o.Blocked {
+				blocked++
+				failures = append(failures, failure{"tie", o.Spec.Signature + "/blocked",
+					"the inner operation did not complete inside the call although the table does not exclude the placement (a mutex the table does not know?)", true, replay})
+			}
+			if len(o.Failed) > 0 {
+				var ds []string
+				for _, iv := range o.Failed {
+					ds = append(ds, iv.Name+": "+iv.Detail)
+				}
+				failures = append(failures, failure{"prop", o.Spec.Signature,
+					fmt.Sprintf("running %s to completion inside %s of %s breaks, at quiescence, invariants that hold in both sequential orders: %s (table verdict: %s)",
+						o.Spec.Inner, o.Spec.Label, o.Spec.Outer, strings.Join(ds, "; "), o.Spec.Table), true, replay})
+				viol = append(viol, map[string]interface{}{"signature": o.Spec.Signature, "failed": o.Failed, "table": o.Spec.Table})
+			}
+		}
+	}
+	emit(map[string]interface{}{"mode": "placements", "replayed": len(specs), "fired": fired, "not_reached": notFired, "blocked": blocked,
+		"excluded_by_table": excluded, "no_dynamic_hook": skipped, "invariant_checks": checks, "sequentially_failing_too": seqOnly,
+		"violations": viol, "failures": failures, "samples": samples})
 }
